@@ -70,7 +70,8 @@ class MemoryAccess:
                                         priority, pgn, sa, timestamp, data
                                     )
                                     self.server.set_busy(False)
-                                    self.server.reset_query()
+                                    # we stopped listening for DM14 above: listen again for the next request
+                                    self.reset_query()
                                     self.state = DMState.IDLE
                                     self.server.error = 0x0
 
